@@ -67,6 +67,12 @@ macro_rules! value {
 //         .collect()
 // }
 
+/// Quantities are 128-bit integers in the IR; a value its ledger field can't hold is an
+/// error, never something to wrap, truncate or drop.
+fn quantity_into<T: TryFrom<i128>>(amount: i128, field: &str) -> Result<T, Error> {
+    T::try_from(amount).map_err(|_| Error::CoerceError(amount.to_string(), field.to_string()))
+}
+
 fn compile_struct(ir: &tir::StructExpr) -> Result<primitives::PlutusData, Error> {
     let fields = ir
         .fields
@@ -101,7 +107,9 @@ fn compile_native_asset_for_output(
     let policy = primitives::Hash::from(policy.as_slice());
     let asset_name = coercion::expr_into_bytes(&ir.asset_name)?;
     let amount = coercion::expr_into_number(&ir.amount)?;
-    let amount = primitives::PositiveCoin::try_from(amount as u64).unwrap();
+    let amount: u64 = quantity_into(amount, "asset amount")?;
+    let amount = primitives::PositiveCoin::try_from(amount)
+        .map_err(|_| Error::CoerceError(amount.to_string(), "positive asset amount".to_string()))?;
 
     let asset = asset!(policy, asset_name.clone(), amount);
 
@@ -118,10 +126,16 @@ fn compile_native_asset_for_mint(
     let amount = coercion::expr_into_number(&ir.amount)?;
 
     let amount = if !is_burn {
-        primitives::NonZeroInt::try_from(amount as i64).unwrap()
+        amount
     } else {
-        primitives::NonZeroInt::try_from(-amount as i64).unwrap()
+        amount
+            .checked_neg()
+            .ok_or_else(|| Error::CoerceError(amount.to_string(), "burn amount".to_string()))?
     };
+
+    let amount: i64 = quantity_into(amount, "mint amount")?;
+    let amount = primitives::NonZeroInt::try_from(amount)
+        .map_err(|_| Error::CoerceError(amount.to_string(), "non-zero mint amount".to_string()))?;
 
     let asset = asset!(policy, asset_name.clone(), amount);
 
@@ -138,7 +152,7 @@ fn compile_value(ir: &tir::AssetExpr) -> Result<primitives::Value, Error> {
     let amount = coercion::expr_into_number(&ir.amount)?;
     if ir.policy.is_none() {
         compile_ada_value(ir)
-    } else if amount as i64 > 0 {
+    } else if amount > 0 {
         let asset = compile_native_asset_for_output(ir)?;
         Ok(value!(0, asset))
     } else {
@@ -188,6 +202,40 @@ fn compile_adhoc_script(
     Ok(script_ref)
 }
 
+/// The terms of an amount are summed per asset class: make sure no total leaves the range
+/// of its field before aggregating (the aggregation itself has no way to report it).
+fn ensure_totals_fit(values: &[primitives::Value]) -> Result<(), Error> {
+    let mut coin: u128 = 0;
+    let mut assets: BTreeMap<(primitives::PolicyId, Vec<u8>), u128> = BTreeMap::new();
+
+    for value in values {
+        match value {
+            primitives::Value::Coin(x) => coin += *x as u128,
+            primitives::Value::Multiasset(x, multiasset) => {
+                coin += *x as u128;
+
+                for (policy, names) in multiasset.iter() {
+                    for (name, amount) in names.iter() {
+                        *assets.entry((*policy, name.to_vec())).or_default() +=
+                            u64::from(*amount) as u128;
+                    }
+                }
+            }
+        }
+    }
+
+    let too_big = |total: u128| total > u64::MAX as u128;
+
+    if too_big(coin) || assets.values().any(|x| too_big(*x)) {
+        return Err(Error::CoerceError(
+            "sum of amounts".to_string(),
+            "64-bit quantity".to_string(),
+        ));
+    }
+
+    Ok(())
+}
+
 fn compile_output_block(
     ir: &tir::Output,
     network: Network,
@@ -200,6 +248,8 @@ fn compile_output_block(
         .iter()
         .map(compile_value)
         .collect::<Result<Vec<_>, _>>()?;
+
+    ensure_totals_fit(&values)?;
 
     let value = asset_math::aggregate_values(values);
 
@@ -218,6 +268,29 @@ fn compile_output_block(
     );
 
     Ok(output)
+}
+
+fn ensure_mint_totals_fit<'a>(
+    items: impl Iterator<Item = &'a primitives::Multiasset<primitives::NonZeroInt>>,
+) -> Result<(), Error> {
+    let mut totals: BTreeMap<(primitives::PolicyId, Vec<u8>), i128> = BTreeMap::new();
+
+    for multiasset in items {
+        for (policy, names) in multiasset.iter() {
+            for (name, amount) in names.iter() {
+                *totals.entry((*policy, name.to_vec())).or_default() += i64::from(*amount) as i128;
+            }
+        }
+    }
+
+    if totals.values().any(|x| i64::try_from(*x).is_err()) {
+        return Err(Error::CoerceError(
+            "sum of mint amounts".to_string(),
+            "64-bit quantity".to_string(),
+        ));
+    }
+
+    Ok(())
 }
 
 fn compile_mint_block(tx: &tir::Tx) -> Result<Option<primitives::Mint>, Error> {
@@ -248,6 +321,8 @@ fn compile_mint_block(tx: &tir::Tx) -> Result<Option<primitives::Mint>, Error> {
         .collect::<Result<Vec<_>, _>>()?;
 
     let burns = asset_math::aggregate_assets(burns);
+
+    ensure_mint_totals_fit(mints.iter().chain(burns.iter()))?;
 
     let all = match (mints, burns) {
         (Some(mints), Some(burns)) => asset_math::aggregate_assets([mints, burns]),
@@ -331,6 +406,7 @@ pub fn compile_cardano_publish_directive(
         .iter()
         .map(compile_value)
         .collect::<Result<Vec<_>, _>>()?;
+    ensure_totals_fit(&values)?;
     let value = asset_math::aggregate_values(values);
 
     let datum_option = adhoc.data.get("datum").map(compile_data_expr).transpose()?;
@@ -387,7 +463,7 @@ pub fn compile_withdrawal_directive(
         .get("amount")
         .ok_or(Error::MissingExpression("withdrawal amount".to_string()))?;
     let amount = coercion::expr_into_number(amount)?;
-    let amount = primitives::Coin::try_from(amount as u64).unwrap();
+    let amount: primitives::Coin = quantity_into(amount, "withdrawal amount")?;
 
     Ok((credential, amount))
 }
@@ -499,13 +575,15 @@ fn compile_validity(validity: Option<&tir::Validity>) -> Result<(Option<u64>, Op
         .and_then(|v| v.since.as_option())
         .map(coercion::expr_into_number)
         .transpose()?
-        .map(|n| n as u64);
+        .map(|n| quantity_into(n, "validity start slot"))
+        .transpose()?;
 
     let until = validity
         .and_then(|v| v.until.as_option())
         .map(coercion::expr_into_number)
         .transpose()?
-        .map(|n| n as u64);
+        .map(|n| quantity_into(n, "ttl slot"))
+        .transpose()?;
 
     Ok((since, until))
 }
@@ -518,12 +596,15 @@ fn compile_donation(tx: &tir::Tx) -> Result<Option<pallas::codec::utils::Positiv
         .map(coercion::expr_into_number)
         .transpose()?
         .map(|amount| {
-            pallas::codec::utils::PositiveCoin::try_from(amount as u64).map_err(|_| {
+            let invalid = || {
                 Error::CoerceError(
                     format!("Invalid donation amount: {}", amount),
                     "PositiveCoin".to_string(),
                 )
-            })
+            };
+
+            let coin = u64::try_from(amount).map_err(|_| invalid())?;
+            pallas::codec::utils::PositiveCoin::try_from(coin).map_err(|_| invalid())
         })
         .transpose()
 }
@@ -537,7 +618,7 @@ fn compile_tx_body(
     let out = primitives::TransactionBody {
         inputs: compile_inputs(tx)?.into(),
         outputs: compile_outputs(tx, network)?,
-        fee: coercion::expr_into_number(&tx.fees)? as u64,
+        fee: quantity_into(coercion::expr_into_number(&tx.fees)?, "fee")?,
         certificates: primitives::NonEmptySet::from_vec(compile_certs(tx, network)?),
         mint: compile_mint_block(tx)?,
         reference_inputs: primitives::NonEmptySet::from_vec(compile_reference_inputs(tx)?),
@@ -566,7 +647,7 @@ fn compile_auxiliary_data(tx: &tir::Tx) -> Result<Option<primitives::AuxiliaryDa
         .metadata
         .into_iter()
         .map(|x| {
-            let key = expr_into_number(&x.key)? as u64;
+            let key: u64 = quantity_into(expr_into_number(&x.key)?, "metadata label")?;
             let value = expr_into_metadatum(&x.value)?;
             Ok((key, value))
         })
